@@ -49,6 +49,12 @@ UNVERIFIED = {
 
 MIN = "(-9223372036854775807 - 1)"
 WITNESSES = [
+    {"match": r"int_arm\.post\[(lt|gt|le|ge)\]", "kind": "run", "props": ["C04"],
+     "input": "let max = 9223372036854775807\nlet min = %s\nfun show(a: Bool, b: Bool, c: Bool, d: Bool) { println(string_repr([a, b, c, d])) }\n"
+              "show(max < -2, max > -2, max <= -2, max >= -2)\nshow(min < 1, min > 1, min <= 1, min >= 1)\nshow(min < max, min > max, min <= max, min >= max)\n"
+              "show(max < min, max > min, max <= min, max >= min)\nshow(4611686018427387904 > -4611686018427387904, -4611686018427387905 < 4611686018427387904, 0 < max, min < 0)\nshow(3 < 5, 5 < 3, 5 <= 5, 5 >= 6)" % MIN,
+     "expect": {"stdout": "[False, True, False, True]\n[True, False, True, False]\n[True, False, True, False]\n[False, True, False, True]\n[True, True, True, True]\n[True, False, True, False]"},
+     "note": "comparisons of integers that are more than 2^63 apart"},
     {"match": r"int_arm\.(post\[div_total\]|safety@pre)", "kind": "run", "props": ["C04", "C02"],
      "input": "println(string_repr(%s / -1))" % MIN,
      "expect": {"stdout_contains": "Exception"}, "note": "i64::MIN / -1 must raise a Garden exception"},
